@@ -6,6 +6,7 @@ import VaxisModel.Model.Sgr
   `enc <cells|ss|render> <caps> <cell>*\t<tokens the real producer wrote>`
   `dec <cells|ss|emu> <style> <tok>*\t<cells the real parser returned | final pen | panic>`
   `rt  <cells|ss> <cell>*\t<cells after the real round trip>`
+  `rtq <cells|ss> <cell>*\tthe same with VAXIS_FORCE_LEGACY_SGR applied (every codec must round-trip its own output in every configuration)`
 
 model-canon = the model's answer in the same text format; impl-canon = the implementation's.
 verdict = the property oracle on the implementation's answer:
@@ -94,7 +95,7 @@ def bit (n k : Nat) : Bool := n / 2 ^ k % 2 == 1
 
 def modelEnc (which : String) (caps : Nat) (cells : List (Cell G)) : Option (List (Tok Seq G)) :=
   if which = "cells" then some (encodeCells (bit caps 2) cells)
-  else if which = "ss" then some (ssEncode cells)
+  else if which = "ss" then some (ssEncode (bit caps 2) cells)
   else if which = "render" then some (renderFrame (bit caps 0) (bit caps 1) (bit caps 2) cells)
   else none
 
@@ -183,13 +184,13 @@ def stepDec (which : String) (dflt : Style) (toks : List (Tok String G)) (impl :
 
 /-! ### rt -/
 
-def modelRt (which : String) (cells : List (Cell G)) : String :=
-  if which = "cells" then exStr cellsStr (parseStyled (encodeCells false cells))
-  else if which = "ss" then exStr cellsStr (ssParse {} (ssEncode cells))
+def modelRt (legacy : Bool) (which : String) (cells : List (Cell G)) : String :=
+  if which = "cells" then exStr cellsStr (parseStyled (encodeCells legacy cells))
+  else if which = "ss" then exStr cellsStr (ssParse {} (ssEncode legacy cells))
   else "bad-op"
 
-def stepRt (which : String) (cells : List (Cell G)) (impl : String) : String :=
-  let mc := modelRt which cells
+def stepRt (legacy : Bool) (which : String) (cells : List (Cell G)) (impl : String) : String :=
+  let mc := modelRt legacy which cells
   let verdict :=
     if !(cells.all fun c => wfB c.st && c.g ≠ "-") then "-"
     else if impl = cellsStr cells then "ok"
@@ -209,7 +210,11 @@ def step (line : String) : String :=
     | _, _ => "bad-op\tbad-op\tbad-op"
   | "rt" :: which :: cells =>
     match cells.mapM parseCell? with
-    | some cells => stepRt which cells impl
+    | some cells => stepRt false which cells impl
+    | none => "bad-op\tbad-op\tbad-op"
+  | "rtq" :: which :: cells =>
+    match cells.mapM parseCell? with
+    | some cells => stepRt true which cells impl
     | none => "bad-op\tbad-op\tbad-op"
   | _ => "bad-op\tbad-op\tbad-op"
 
